@@ -582,6 +582,7 @@ def _order_key(leaf):
 # =============================================================================
 
 _DICT_ENCODINGS = ("PLAIN_DICTIONARY", "RLE_DICTIONARY")
+MAX_PAGE_VALUES = 20 * 1000 * 1000   # guard against absurd allocations on corrupt input
 
 
 class _Ctx(object):
@@ -960,7 +961,10 @@ def _read_chunk(ctx, src, limit, where, ch, leaf, rgd, extent_list):
             values_seen += nv
             if page.encoding is None:
                 ctx.issue("decode", pwhere, "encoding id %r is not in the Encoding enum" % (dh.get("encoding"),))
-            if can_decompress:
+            if nv > MAX_PAGE_VALUES:
+                ctx.issue("unsupported", pwhere, "page declares %d values; refpq refuses to decode more than %d per page" % (nv, MAX_PAGE_VALUES))
+                decode_ok = False
+            elif can_decompress:
                 try:
                     _decode_data_page(ctx, pwhere, page, body, v2, dh, leaf, codec, dict_phys, level_encodings, usize)
                     all_defs.extend(page.def_levels if page.def_levels is not None else [])
@@ -1021,7 +1025,7 @@ def _read_chunk(ctx, src, limit, where, ch, leaf, rgd, extent_list):
         found = dict((k, v) for k, v in page_counts.items())
         if got != found:
             def fmt(d):
-                return sorted((ctx.page_type_names.get(k[0], k[0]), ctx.enc_names.get(k[1], k[1]), v) for k, v in d.items())
+                return sorted(((ctx.page_type_names.get(k[0], k[0]), ctx.enc_names.get(k[1], k[1]), v) for k, v in d.items()), key=repr)
             ctx.issue("encoding_stats", where, "encoding_stats %s, pages found %s" % (fmt(got), fmt(found)))
 
     ch.decoded = decode_ok
@@ -1327,7 +1331,7 @@ def _decode_data_page(ctx, pwhere, page, body, v2, dh, leaf, codec, dict_phys, l
     elif ename == "DELTA_BINARY_PACKED":
         if ph not in ("INT32", "INT64"):
             raise enc.DecodeError("DELTA_BINARY_PACKED on %s" % ph)
-        vals, q = enc.decode_delta(vbuf, vpos, ph == "INT64", vend, info)
+        vals, q = enc.decode_delta(vbuf, vpos, ph == "INT64", vend, info, max_count=n_nonnull)
         page.info["delta"] = info
         if len(vals) != n_nonnull:
             raise enc.DecodeError("delta stream holds %d values, page needs %d" % (len(vals), n_nonnull))
